@@ -58,6 +58,7 @@ impl Compiler {
             r is Ok ==> (r->Ok_0.instructions@.len() > 0 && r->Ok_0.instructions@.last() == opcode_byte(OpCode::Halt)),
             gen_inv(*final(self)),   // so the NEXT compile_ast call may assume it again
     {
+//@GHOST after="self.symbols.reset_to_global(globals_before);" proof { /* the failed program's flow is discarded */ self.height = Ghost(H::At(0)); }
 //@BODY file=compiler.rs fn=compile_ast impl=Compiler sig="pub fn compile_ast(&mut self, ast: &BlockStmt) -> Result<Bytecode, Error>" rules="R1;R4"
     }
 }
